@@ -14,3 +14,5 @@ import Physt.Theorems.C19
 import Physt.Theorems.C02
 import Physt.Theorems.C09
 import Physt.Theorems.C12
+import Physt.Theorems.C15
+import Physt.Theorems.C16
